@@ -159,19 +159,6 @@ func diff(v0, v1 any, one bool, ignores ...Path) (diffs []Path) {
 			diffs = append(diffs, Path{nil})
 			break
 		}
-		var childIgnores []Path
-		ii := -1
-		for _, ign := range ignores {
-			if 1 < len(ign) {
-				switch ti := ign[0].(type) {
-				case nil:
-					childIgnores = append(childIgnores, ign[1:])
-				case int:
-					ii = ti
-					childIgnores = append(childIgnores, ign[1:])
-				}
-			}
-		}
 		for i, m1 := range t0 {
 			if ignoreIndex(i, ignores) {
 				continue
@@ -180,12 +167,22 @@ func diff(v0, v1 any, one bool, ignores ...Path) (diffs []Path) {
 				diffs = append(diffs, Path{i})
 				return
 			}
-			var ds []Path
-			if ii == i || ii < 0 {
-				ds = diff(m1, t1[i], one, childIgnores...)
-			} else {
-				ds = diff(m1, t1[i], one)
+			// The ignores that continue below this index: wildcards and
+			// those that name exactly this index.
+			var childIgnores []Path
+			for _, ign := range ignores {
+				if 1 < len(ign) {
+					switch ti := ign[0].(type) {
+					case nil:
+						childIgnores = append(childIgnores, ign[1:])
+					case int:
+						if ti == i {
+							childIgnores = append(childIgnores, ign[1:])
+						}
+					}
+				}
 			}
+			ds := diff(m1, t1[i], one, childIgnores...)
 			for _, d := range ds {
 				if len(d) == 1 && d[0] == nil {
 					d[0] = i
@@ -198,8 +195,13 @@ func diff(v0, v1 any, one bool, ignores ...Path) (diffs []Path) {
 				}
 			}
 		}
-		if len(t0) != len(t1) && !ignoreIndex(len(t0), ignores) {
-			diffs = append(diffs, Path{len(t0)})
+		// Extra elements of the second array: report the first one that is
+		// not ignored (a longer first array was reported in the loop).
+		for i := len(t0); i < len(t1); i++ {
+			if !ignoreIndex(i, ignores) {
+				diffs = append(diffs, Path{i})
+				break
+			}
 		}
 	case map[string]any:
 		t1, ok := v1.(map[string]any)
